@@ -233,7 +233,8 @@ def _ipool():
 def _lens(model, prefix):
     k = [x for x in model if x.startswith(prefix)]
     n = model[k[0]] if k else 1
-    return sorted({max(0, min(n, 50)), 0, 1, 2, 3})
+    # ... and lengths whose encoding needs a TWO-byte ULEB128 length prefix (>= 128 bytes)
+    return sorted({max(0, min(n, 50)), 0, 1, 2, 3, 127, 128, 130, 200})
 
 
 def replay_expr(bo, ps):
@@ -242,7 +243,7 @@ def replay_expr(bo, ps):
         from spec import dwarf_std
         encd = cfi._ExprEncoder()
         for n in _lens(model, "ops_len!"):
-            ops = [_pool()[i % len(_pool())] for i in range(n)]
+            ops = [_pool()[i % len(_pool())] for i in range(n)] if n < 100 else [expr.OpDup()] * n       # n >= 100: n single-byte operations
             for tail in (b"", b"\x12", b"\x08\x01\x00"):
                 try:
                     enc = bytes(encd.encode(ops, bo, ps))
